@@ -120,6 +120,14 @@ def case_strategy(writer):
         def build(draw):
             relativize = draw(st.integers(0, 4)) != 0
             L = draw(layout_strategy(percent_only=not relativize))
+            mixed = False
+            if writer == "dfxp" and not relativize and draw(st.integers(0, 2)) == 0:
+                # a percent region with a padding in absolute units (relativization is off)
+                ab = _size_s().filter(lambda z: z[1] != "%")
+                L["padding"] = [draw(st.one_of(st.none(), ab)) for _ in range(4)]
+                if all(x is None for x in L["padding"]):
+                    L["padding"][0] = draw(ab)
+                mixed = True
             if writer == "webvtt" and not relativize and draw(st.integers(0, 2)) == 0:
                 # relativization off and absolute units: WebVTT must drop the positioning -
                 # also when every absolute length is zero
@@ -139,7 +147,7 @@ def case_strategy(writer):
                     "shared": draw(st.booleans()),
                     "prev": draw(st.one_of(st.none(), st.none(), layout_strategy(percent_only=False))),
                     "fit": draw(st.booleans()), "level": draw(st.sampled_from(levels)),
-                    "ctor_positional": draw(st.sampled_from([0, 0, 0, 1, 2, 3]))}
+                    "ctor_positional": draw(st.sampled_from([0, 0, 0, 1, 2, 3])), "mixed_padding": mixed}
         return build()
     return strat
 
@@ -187,6 +195,11 @@ def _expect(case):
                   for s in (L.get(part) or []))
     if not case["relativize"]:
         if not all_pct:
+            region_pct = all(s is None or s[1] == "%" for part in ("origin", "extent") for s in (L.get(part) or []))
+            if case.get("mixed_padding") and region_pct:
+                # relativization off, region in percent, padding in absolute units: the fit rule
+                # still governs the region; the padding is not judged
+                return "ok", rel_layout(dict(L, padding=None), None, None)
             return "skip", None
         return "ok", rel_layout(L, None, None)
     try:
